@@ -36,10 +36,10 @@ theorem foldl_delete_eq (F : Nat) (src : Nat) (es : List (Nat × Nat)) (s : OrSw
 
 /-- The entries `on_multi_set` applies: the applicable documents, by stamp. -/
 def validPuts (s : OrSwot) (docs : List Doc) : List (Nat × Nat) :=
-  sortByTs ((docs.filter (fun d => willApply s d.1 d.2.1)).map (fun d => (d.1, d.2.1)))
+  sortByTs (((newest (fun (v : Nat × List Nat) => v.1) docs).filter (fun d => willApply s d.1 d.2.1)).map (fun d => (d.1, d.2.1)))
 
 def validDels (s : OrSwot) (docs : List (Nat × Nat)) : List (Nat × Nat) :=
-  sortByTs (docs.filter (fun d => willApply s d.1 d.2))
+  sortByTs ((newest (fun (t : Nat) => t) docs).filter (fun d => willApply s d.1 d.2))
 
 theorem onSet_set (F : Nat) (n : Node) (src : Nat) (d : Doc) :
     (onSet F n src d false).1.set =
@@ -59,12 +59,12 @@ theorem onDel_set (F : Nat) (n : Node) (src id ts : Nat) :
 
 theorem onMultiSet_set (F : Nat) (n : Node) (src : Nat) (docs : List Doc) :
     (onMultiSet F n src docs none).1.set = applyAll F n.set ((validPuts n.set docs).map (putOp src)) := by
-  simp only [onMultiSet, validPuts]
+  simp only [onMultiSet, onMultiSetCore, validPuts]
   exact foldl_insert_eq F src _ _
 
 theorem onMultiDel_set (F : Nat) (n : Node) (src : Nat) (docs : List (Nat × Nat)) :
     (onMultiDel F n src docs none).1.set = applyAll F n.set ((validDels n.set docs).map (delOp src)) := by
-  simp only [onMultiDel, validDels]
+  simp only [onMultiDel, onMultiDelCore, validDels]
   exact foldl_delete_eq F src _ _
 
 /-- Reading node `x` of a node list after writing node `i`. -/
@@ -333,12 +333,12 @@ theorem applyRemovals_sets (c : Cluster) (j : Nat) (removed : List (Nat × Nat))
       if x = j then applyAll Cluster.F (absSet c j) (removalOps (absSet c j) removed) else absSet c x := by
   unfold applyRemovals
   match removed with
-  | [] => simp only [removalOps, validDels, sortByTs, applyAll, List.filter_nil, List.foldr_nil, List.map_nil, List.foldl_nil]; split <;> simp_all
+  | [] => simp only [removalOps, validDels, newest_nil, sortByTs, applyAll, List.filter_nil, List.foldr_nil, List.map_nil, List.foldl_nil]; split <;> simp_all
   | [r] =>
     simp only
     rw [applyAt_del_sets c j 1 r.1 r.2 h hf x]
     by_cases hx : x = j
-    · simp only [hx, if_true, removalOps, validDels, List.filter_cons, List.filter_nil]
+    · simp only [hx, if_true, removalOps, validDels, newest_singleton, List.filter_cons, List.filter_nil]
       by_cases hw : willApply (absSet c j) r.1 r.2 = true
       · simp [hw, sortByTs_single, applyAll, delOp]
       · simp [hw, sortByTs, applyAll]
@@ -379,6 +379,49 @@ def fetched (peer : Storage.Keyspace) (modified : List (Nat × Nat)) : List Doc 
     | some bytes, some (ts, _) => some (m.1, ts, bytes)
     | _, _ => none)
 
+def fetchOne (store : Storage.Keyspace) (m : Nat × Nat) : Option Doc :=
+  match aget store.data m.1, aget store.rows m.1 with
+  | some bytes, some (ts, _) => some (m.1, ts, bytes)
+  | _, _ => none
+
+theorem fetched_eq (store : Storage.Keyspace) (modified : List (Nat × Nat)) :
+    fetched store modified = modified.filterMap (fetchOne store) := rfl
+
+theorem fetchOne_id (store : Storage.Keyspace) (m : Nat × Nat) (d : Doc) (h : fetchOne store m = some d) : d.1 = m.1 := by
+  unfold fetchOne at h
+  cases hdat : aget store.data m.1 with
+  | none => rw [hdat] at h; simp at h
+  | some bytes =>
+    cases hrow : aget store.rows m.1 with
+    | none => rw [hdat, hrow] at h; simp at h
+    | some row =>
+      obtain ⟨ts, tomb⟩ := row
+      rw [hdat, hrow] at h
+      simp only [Option.some.injEq] at h
+      subst h; rfl
+
+theorem fetched_nodup (store : Storage.Keyspace) (modified : List (Nat × Nat)) (h : (modified.map (·.1)).Nodup) :
+    C02.NoDupIds (fetched store modified) := by
+  unfold C02.NoDupIds
+  rw [fetched_eq]
+  induction modified with
+  | nil => simp
+  | cons m ms ih =>
+    simp only [List.map_cons, List.nodup_cons] at h
+    have ih' := ih h.2
+    rw [List.filterMap_cons]
+    cases hfm : fetchOne store m with
+    | none => exact ih'
+    | some d =>
+      simp only [List.map_cons, List.nodup_cons]
+      refine ⟨?_, ih'⟩
+      intro hmem
+      obtain ⟨d', hd', e⟩ := List.mem_map.1 hmem
+      obtain ⟨m', hm', hfm'⟩ := List.mem_filterMap.1 hd'
+      apply h.1
+      rw [← fetchOne_id store m d hfm, ← e, fetchOne_id store m' d' hfm']
+      exact List.mem_map.2 ⟨m', hm', rfl⟩
+
 theorem applyModified_sets (c : Cluster) (j i : Nat) (modified : List (Nat × Nat)) (h : j < c.nodes.length)
     (hf : (getNode c j).failNext = false) (x : Nat) :
     absSet (applyModified c j i modified).1 x =
@@ -386,7 +429,7 @@ theorem applyModified_sets (c : Cluster) (j i : Nat) (modified : List (Nat × Na
       else absSet c x := by
   unfold applyModified
   match modified with
-  | [] => simp only [modificationOps, validPuts, fetched, sortByTs, applyAll, List.filterMap_nil, List.filter_nil, List.foldr_nil, List.map_nil, List.foldl_nil]; split <;> simp_all
+  | [] => simp only [modificationOps, validPuts, fetched, newest_nil, sortByTs, applyAll, List.filterMap_nil, List.filter_nil, List.foldr_nil, List.map_nil, List.foldl_nil]; split <;> simp_all
   | m :: ms =>
     simp only
     rw [applyAt_mput_sets c j 1 _ h hf x]
@@ -435,8 +478,8 @@ theorem applyAt_ok (c : Cluster) (i src : Nat) (iss : Issued) (hf : (getNode c i
       have : (onDel Cluster.F (getNode (touch c i) i).ks src id ts (getNode (touch c i) i).failNext).2 = .ok := by
         rw [hfn]; simp only [onDel]; simp_all
       simp [this]
-  | mput ds => simp [hfn, onMultiSet]
-  | mdel ds => simp [hfn, onMultiDel]
+  | mput ds => simp [hfn, onMultiSet, onMultiSetCore]
+  | mdel ds => simp [hfn, onMultiDel, onMultiDelCore]
 
 theorem applyRemovals_ok (c : Cluster) (j : Nat) (removed : List (Nat × Nat)) (hf : (getNode c j).failNext = false) :
     (applyRemovals c j removed).2 = true := by
